@@ -125,7 +125,8 @@ public class Drv {
 		fmt.Fprintf(&b, "            case %q: return build_%s();\n", k.Name, k.Name)
 	}
 	b.WriteString("        }\n        throw new IllegalStateException(\"packet \" + name);\n    }\n")
-	b.WriteString("    static BinaryCodec newAny(String name) {\n        switch (name) {\n")
+	b.WriteString("    static boolean reuse = false;\n    static java.util.Map<String, BinaryCodec> last = new java.util.HashMap<>();\n    static BinaryCodec newAny(String name) {\n        if (reuse && last.containsKey(name)) return last.get(name);\n        BinaryCodec o = newAny0(name);\n        last.put(name, o);\n        return o;\n    }\n")
+	b.WriteString("    static BinaryCodec newAny0(String name) {\n        switch (name) {\n")
 	for _, k := range p.Packets {
 		fmt.Fprintf(&b, "            case %q: return new %s();\n", k.Name, k.Name)
 	}
@@ -148,6 +149,7 @@ public class Drv {
         try {
             switch (parts[0]) {
                 case "CKS": setChecksums(parts[1].equals("1")); return "R - ok";
+                case "REUSE": reuse = parts[1].equals("1"); return "R - ok";
                 case "ENC": {
                     String arg = parts.length > 3 ? parts[3] : "";
                     t = (parts[2] + " " + arg).trim().split("\\s+"); i = 0;
